@@ -38,7 +38,16 @@ impl Paired { pub closed spec fn inner(self) -> Arithmetic { self.stats } }
 //@|         final(self).inner().s1() == old(self).inner().s1() + (data_a.v() - data_b.v()),
 //@|         final(self).inner().s2() == old(self).inner().s2() + rmul(data_a.v() - data_b.v(), data_a.v() - data_b.v()),
 //@|         final(self).inner().n() == old(self).inner().n() + 1,
-// extend_tuple (`for &(x, y) in ..`: ref patterns) and extend (manual .next()/.count() protocol) are outside Verus' subset: Kani, bounded
+//@fn extend_tuple ret r
+//@subst "iter.into_iter()" => "iter"
+//@| requires old(self).inner().wf(), old(self).inner().n() + iter.len() < usize::MAX,
+//@| ensures r is Ok, final(self).inner().wf(), final(self).inner().n() == old(self).inner().n() + iter.len(),
+//@|         final(self).inner().s1() == old(self).inner().s1() + dsum_to(iter@, iter.len() as int),
+//@|         final(self).inner().s2() == old(self).inner().s2() + dsumsq_to(iter@, iter.len() as int),
+//@loop 0| invariant self.inner().wf(), self.inner().n() == old(self).inner().n() + it.index@, old(self).inner().n() + iter.len() < usize::MAX,
+//@loop 0|     self.inner().s1() == old(self).inner().s1() + dsum_to(iter@, it.index@ as int),
+//@loop 0|     self.inner().s2() == old(self).inner().s2() + dsumsq_to(iter@, it.index@ as int),
+// extend (manual .next()/.count() protocol) is outside Verus' subset: Kani, bounded
 //@fn sample_mean ret r
 //@| requires self.inner().wf(),
 //@| ensures r.v() == mean_of(self.inner().s1(), self.inner().n()),
